@@ -1,5 +1,6 @@
 import PycsepVerif.Proto
 import PycsepVerif.Model.Sampler
+import PycsepVerif.Model.SamplerExt
 /-! driver ops of property C06 (prefix `c06_`) -/
 namespace Drive.C06
 open Proto
@@ -61,5 +62,27 @@ def handle : List String → Option String
   -- c06_seed <none|int>
   | ["c06_seed", s] => some (if s = "none" then toString (Sampler.seedApplied none) else
       match parseInt? s with | some i => toString (Sampler.seedApplied (some i)) | none => "bad-op")
+  -- c06_nactive <observed counts> : number of active cells the binary / Brier tests prescribe
+  | ["c06_nactive", os] => some (match parseList? (fun s => s.toNat?) os with
+      | some os => toString (Sampler.nActive os) | none => "bad-op")
+  -- c06_bintest <rates> <observed counts> <nsim> <stream> : whole array-level binary/Brier test fed with a stream
+  --   (masked weights and the prescribed number of active cells both computed by the model): status arrays unused
+  | ["c06_bintest", rs, os, k, ds] =>
+      some (match parseList? parseRat? rs, parseList? (fun s => s.toNat?) os, k.toNat?, parseList? parseRat? ds with
+      | some rs, some os, some k, some ds =>
+        let (arrs, st, rest) := chain (Sampler.weightsMasked rs) (Sampler.nActive os) k ds []
+        let body := if arrs.isEmpty then "-" else ";".intercalate (arrs.map (showList toString))
+        s!"{st} {body} {rest}"
+      | _, _, _, _ => "bad-op")
+  -- c06_test <p|m> <rates> <observed counts> <rows ;-separated> : whole array-level test with injected numbers;
+  --   prescribed count = sum(obs) (p) / nActive(obs) (m); `exception` = IndexError or failed count assertion
+  | ["c06_test", mode, rs, os, rows] =>
+      some (match parseList? parseRat? rs, parseList? (fun s => s.toNat?) os, parseList2? parseRat? rows with
+      | some rs, some os, some rows =>
+        let r := if mode = "m" then Sampler.binaryTestInjected rs os rows else Sampler.poissonTestInjected rs os rows
+        (match r with
+         | some arrs => if arrs.isEmpty then "-" else ";".intercalate (arrs.map (showList toString))
+         | none => "exception")
+      | _, _, _ => "bad-op")
   | _ => none
 end Drive.C06
